@@ -5,6 +5,7 @@ from vlib import metal_inline as mi
 from vlib.tprog import py
 
 H = 'checks.hC09'
+SEED = [0]
 
 
 def I(src):   # noqa: E743
@@ -108,6 +109,79 @@ def programs(tier):
     return out
 
 
+def generated(count, seed):
+    """systematically varied (macro, caller) pairs from a small grammar (deterministic in ``seed``):
+    macro body = texts / interpolations / slots (plain, under a condition, under a repeat; names may repeat) /
+    local and global definitions; caller = any subset of fillers (incl. an unknown name) whose elements may carry
+    condition / define / repeat and may read the macro's locals and loop variables (dynamic scope), the use
+    placed plain / twice / inside a repeat / with a define on the using element / inside another macro."""
+    import random
+    rnd = random.Random(1000 + seed)
+    out = []
+    for n in range(count):
+        vars_ = [['v', 'int', 0], ['dv', 'int', 1], ['seq', 'len', 2], ['cv', 'bool', 0], ['fc', 'bool', 1]]
+        body = []
+        nslots = rnd.choice([0, 1, 1, 2, 2, 3])
+        names = [rnd.choice(['x', 'y']) for _ in range(nslots)]
+        for k, sn in enumerate(names):
+            body.append(rnd.choice(['a', 'b ', '', I('v'), I("loc | 'noloc'")]))
+            default = [rnd.choice(['d%d' % k, 'dflt ', '']), rnd.choice([I('v'), I("item | 'noitem'"), ''])]
+            default = [d for d in default if d != '']
+            slot = el(rnd.choice(['b', 'i', 'span']), *default, define_slot=sn)
+            wrap = rnd.choice(['plain', 'plain', 'cond', 'repeat'])
+            if wrap == 'cond':
+                slot = el('w', '(', slot, ')', condition=py('cv'))
+            elif wrap == 'repeat':
+                slot = el('li', slot, indent=2, repeat=['item', py('seq')])
+            body.append(slot)
+        body.append(rnd.choice(['z', I('v + 2'), I("macroname | 'nomn'"), '']))
+        body = [b for b in body if b != '']
+        kw = {}
+        dchoice = rnd.choice(['none', 'local', 'global', 'both'])
+        if dchoice in ('local', 'both'):
+            kw.setdefault('define', []).append(['local', 'loc', py('dv + 1')])
+        if dchoice in ('global', 'both'):
+            kw.setdefault('define', []).append(['global', 'glob', py('dv + 2')])
+        macro = el('p', *body, define_macro='g', **kw)
+        fills = []
+        for sn in ['x', 'y', 'zz']:
+            if rnd.random() < 0.55:
+                content = [rnd.choice(['F' + sn, 'fill ', '']),
+                           rnd.choice([I('v + 1'), I("loc | 'noloc'"), I("item | 'noitem'"), I("glob | 'noglob'"), ''])]
+                content = [c for c in content if c != ''] or ['F']
+                fkw = {}
+                st = rnd.choice(['none', 'none', 'cond', 'define', 'repeat'])
+                if st == 'cond':
+                    fkw['condition'] = py('fc')
+                elif st == 'define':
+                    fkw['define'] = [['local', 'fl', py('v + 7')]]
+                    content.append(I('fl'))
+                elif st == 'repeat':
+                    # the repeated element is a child on its own line: the separator of a repeat on the filler
+                    # element itself would be the caller's whitespace before it (C08's subject, not METAL's)
+                    content.append(el('k', I('j'), I("item | 'noitem'"), indent=6, repeat=['j', py('seq')]))
+                fills.append(el(rnd.choice(['em', 'q']), *content, fill_slot=sn, **fkw))
+        if rnd.random() < 0.3:
+            fills.insert(0, 'discarded')
+        place = rnd.choice(['plain', 'twice', 'in-repeat', 'define-on-use', 'cond-on-use'])
+        u = use('g', *copy.deepcopy(fills))
+        if place == 'twice':
+            site = [u, '+', use('g', *copy.deepcopy(fills[:1]))]
+        elif place == 'in-repeat':
+            site = [el('li', u, indent=2, repeat=['item', py('seq')])]
+        elif place == 'define-on-use':
+            site = [use('g', *copy.deepcopy(fills), define=[['local', 'v', py('v + 3')]])]
+        elif place == 'cond-on-use':
+            site = [use('g', *copy.deepcopy(fills), condition=py('fc'))]
+        else:
+            site = [u]
+        shown = rnd.random() < 0.4
+        head = macro if shown else el('hide', macro, condition=py('False'))
+        tree = el('div', head, '|', *site, '|', P('loc'), P('glob'), P('macroname'), P('item'))
+        out.append(('gen-%d-%d' % (seed, n), None, tree, vars_))
+    return out
+
+
 def whole_template_program():
     lib = {'tag': 'article', 'children': ['T[', {'tag': 'b', 'children': ['slot-default'], 'define_slot': 's'}, ']',
                                           {'interp': py('v')}]}
@@ -121,7 +195,7 @@ def whole_template_program():
 
 def build_jobs(tier):
     jobs = []
-    for label, lib, caller, vars_ in programs(tier):
+    for label, lib, caller, vars_ in programs(tier) + generated(150 if tier == "quick" else 1500, SEED[0]):
         macros = {}
         if lib is not None:
             mi.collect_macros(lib, macros)
@@ -136,6 +210,7 @@ def build_jobs(tier):
 
 def plan(tier, seed):
     quick = tier == 'quick'
+    SEED[0] = seed
     jobs = build_jobs(tier)
     by = {j['label']: j for j in jobs}
     fam = dict(name='metal_inlining', module=H, fn='H', jobs=jobs, timeout=300 if quick else 900, batch=2, vacuity=2,
